@@ -259,7 +259,9 @@ func vNewCS(n int, height int64, me int) *vCS {
 	cs.LastValidators = st.LastValidators
 	cs.Votes = NewHeightVoteSet(vChain, height, vals)
 	cs.CommitRound = -1
-	cs.LastCommit = types.NewVoteSet(vChain, height-1, 0, types.VoteTypePrecommit, st.LastValidators)
+	if height > 1 {
+		cs.LastCommit = types.NewVoteSet(vChain, height-1, 0, types.VoteTypePrecommit, st.LastValidators)
+	}
 	h.cs = cs
 	return h
 }
